@@ -142,6 +142,13 @@ CLASSES = [
     E('UnitQuaternion.Ry', [V(None)], {'unit': U}, tags={'unit_in:vec'}), E('UnitQuaternion.Rz', [V(None)], {'unit': U}, tags={'unit_in:vec'}),
     # element-wise helpers taking "array_like" angles: list / tuple / 1-D array must be interchangeable (row and column keep their shape)
     E('base.angdiff', [V(None)], tags={'forms3', 'nolength'}), E('base.angdiff', [V(None), A], tags={'forms3', 'nolength'}),
+    # getmatrix: a 1-D array-like reshaped to the requested shape (a 2-D array is a matrix to it, so three forms only)
+    E('base.getmatrix', [V(6), ('LIT', (2, 3))], tags={'forms3'}), E('base.getmatrix', [V(6), ('LIT', (3, 2))], tags={'forms3'}),
+    E('base.getmatrix', [V((2, 4, 6, 8)), ('LIT', (None, 2))], tags={'forms3', 'nolength'}), E('base.getmatrix', [V((3, 6)), ('LIT', (3, None))], tags={'forms3', 'nolength'}),
+    E('base.getmatrix', [V(None), ('LIT', (None, None))], tags={'forms3', 'nolength'}),
+    E('base.h2e', [V((2, 3, 4))], tags={'nolength', 'forms3'}), E('base.e2h', [V((2, 3))], tags={'nolength', 'forms3'}),
+    # one angle per twist: a vector of angles for an object holding three twists has three elements
+    E('m:Twist3.exp', [V(3)], recv=('OBJM', 'Twist3')), E('m:Twist2.exp', [V(3)], recv=('OBJM', 'Twist2')),
 ]
 
 
